@@ -26,6 +26,7 @@ RULE += (' Also: body failures of every standard type incl. instances of Excepti
 RULE += (' Also: class managers and lease copies are falsy.')
 RULE += (' Also: managers that are awaitable as well (being awaited is reported).')
 RULE += (' Also: managers swallowing every BaseException the body raises.')
+RULE += (' Also: decorated functions whose RESULT is an awaitable object (handed to the caller as it is, never awaited by the wrapper).')
 RULE += (' Also: bodies raising subclasses of GeneratorExit / StopAsyncIteration.')
 RULE += (' Also: the decorated function as a plain function that works when called and returns an awaitable.')
 RULE += (" Also: contexts replacing the body's failure by a RuntimeError of their own.")
@@ -71,7 +72,7 @@ def cases(tier, seed, shard, nshards):
                # report a Stop(Async)Iteration that escaped): still the context's replacement, whatever the chaining
                "translate_runtime": rng.random() < 0.4,
                "while_handling": rng.random() < 0.3,
-               "precreate": rng.random() < 0.25}
+               "precreate": rng.random() < 0.25, "result_job": rng.random() < 0.25}
 
 
 BodyError = Planned  # the body's failure: one of the PLANNED family, chosen per scenario
@@ -304,7 +305,28 @@ def execute(case, choose, cancel_at=None):
             exc = EXACT[kind[6:]](call_id) if kind.startswith("exact:") else PLANNED[kind](call_id)
             raised[call_id] = exc
             raise exc
+        if case.get("result_job"):
+            # what the decorated function RETURNS happens to be awaitable (a lazily started job, a future the caller is
+            # meant to await later - or never): a result like any other, handed to the caller as it is
+            jobs[call_id] = _ResultJob(call_id)
+            return jobs[call_id]
         return ("result", call_id)
+
+    jobs = {}
+
+    class _ResultJob:
+        def __init__(self, cid):
+            self.cid = cid
+
+        def __eq__(self, other):
+            return isinstance(other, tuple) and other == ("result", self.cid) and jobs.get(self.cid) is self
+
+        __hash__ = None
+
+        def __await__(self):
+            ev.append((CTX.current, "result-awaited", self.cid))
+            return ("awaited", self.cid)
+            yield
 
     if case.get("as_method"):
         # the decorated coroutine function is a METHOD: defined in a class body, called through an instance - which
